@@ -172,6 +172,13 @@ def correspondence(ctx):
         "both entries unclean) forms the regression classes F21-modify-unclean-entry-<form>-<side>-<kind> of the repaired defect "
         "F21 (the hashes were looked up under the cleaned name in the maps as recorded: an unchanged file with one unclean entry "
         "counted as modified, a changed file with two unclean entries did not); "
+        "match-prefix-normalises-to-dot-<form>-<equal|different>-<disallow|require> classes: all four MATCH forms with destination "
+        "prefixes '.', './', 'out/..', './.', 'out/', 'out//', './out', 'out/.', 'a/./b', 'a//b', 'a/b/', 'x/../out' and source "
+        "prefixes 'src/', 'src//', './src', 'src/.', 'a/../src', 'src/sub/..', source artifacts plain, nested, recorded as ./x and "
+        "recorded outside the working directory (../shared/lib.c with IN out -> shared/lib.c), equal and different digests, "
+        "followed by DISALLOW * and by REQUIRE; oracle = the specification on the paths the names and prefixes denote (a "
+        "destination prefix denoting the top directory is like none; names behind leading '../' are in the oracle's domain now; "
+        "a SOURCE prefix denoting '.' stays without a claim: the code finds nothing under './'); "
         "require-on-empty-queue-<form> classes: REQUIRE f with no artifacts at all (materials, products, inspection), as the only "
         "rule with another artifact queued, followed by other rules, after ALLOW * / MATCH * / CREATE * / DELETE * / MODIFY f "
         "consumed everything (all rejected), and the twins where f is queued (accepted); "
